@@ -5,6 +5,7 @@ import (
 	"fmt"
 	"net/url"
 	"sort"
+	"strings"
 )
 
 // NewURL builds a URL from a SimpleURL and a schema for validating and
@@ -132,7 +133,7 @@ func (u *URL) String() string {
 	// Path
 	path := "/"
 	for _, p := range u.Fragments {
-		path += p + "/"
+		path += url.PathEscape(p) + "/"
 	}
 
 	path = path[:len(path)-1]
@@ -172,10 +173,15 @@ func (u *URL) String() string {
 			panic(err)
 		}
 
-		param := "filter=" + string(mf)
+		param := "filter=" + escapeQueryValue(string(mf))
 		urlParams = append(urlParams, param)
 	} else if u.Params.FilterLabel != "" {
-		urlParams = append(urlParams, "filter="+u.Params.FilterLabel)
+		// The label is read as the content of a JSON string when
+		// the URL is parsed.
+		label, _ := json.Marshal(u.Params.FilterLabel)
+		label = label[1 : len(label)-1]
+
+		urlParams = append(urlParams, "filter="+escapeQueryValue(string(label)))
 	}
 
 	// Pagination
@@ -183,14 +189,14 @@ func (u *URL) String() string {
 		if num, ok := u.Params.Page["number"]; ok {
 			urlParams = append(
 				urlParams,
-				"page%5Bnumber%5D="+fmt.Sprint(num),
+				"page%5Bnumber%5D="+escapeQueryValue(fmt.Sprint(num)),
 			)
 		}
 
 		if size, ok := u.Params.Page["size"]; ok {
 			urlParams = append(
 				urlParams,
-				"page%5Bsize%5D="+fmt.Sprint(size),
+				"page%5Bsize%5D="+escapeQueryValue(fmt.Sprint(size)),
 			)
 		}
 	}
@@ -215,6 +221,12 @@ func (u *URL) String() string {
 	params = params[:len(params)-1]
 
 	return path + params
+}
+
+// escapeQueryValue escapes s so it can be safely used in a query parameter. A
+// space is escaped as %20 so that the result can also be unescaped as a path.
+func escapeQueryValue(s string) string {
+	return strings.Replace(url.QueryEscape(s), "+", "%20", -1)
 }
 
 // UnescapedString returns the same thing as String, but special characters are
